@@ -735,7 +735,8 @@ func genDates(w *lib.Writer, r *lib.Rand, tier string) {
 		case 2:
 			tb = append(tb[:2], tb[3:]...)
 		case 3:
-			tb[r.Intn(len(tb))] = tfield{Name: tb[0].Name, IsB: true}
+			i := r.Intn(len(tb))
+			tb[i] = tfield{Name: tb[i].Name, IsB: true}
 		}
 		runCase(w, in{Kind: "time", Tbl: tb})
 	}
